@@ -1,6 +1,7 @@
 package verifsim
 
 import (
+	"bytes"
 	"fmt"
 	"go/ast"
 	"go/token"
@@ -10,6 +11,7 @@ import (
 	"os"
 	"reflect"
 	"strconv"
+	"sync"
 	"unsafe"
 )
 
@@ -205,11 +207,34 @@ func MapValuesSeq[K comparable, V any](m map[K]V) iter.Seq[V] {
 
 type procWriter struct{ stderr bool }
 
+var (
+	captureMu  sync.Mutex
+	captureOut *bytes.Buffer
+	captureErr *bytes.Buffer
+)
+
+// CapturePassthrough redirects what instrumented code prints while no
+// simulation runs (free-running tiers) into the given buffers; nil restores
+// the real streams.
+func CapturePassthrough(stdout, stderr *bytes.Buffer) {
+	captureMu.Lock()
+	captureOut, captureErr = stdout, stderr
+	captureMu.Unlock()
+}
+
 func (w procWriter) Write(b []byte) (int, error) {
 	s := cur
 	if s == nil {
+		captureMu.Lock()
+		defer captureMu.Unlock()
 		if w.stderr {
+			if captureErr != nil {
+				return captureErr.Write(b)
+			}
 			return os.Stderr.Write(b)
+		}
+		if captureOut != nil {
+			return captureOut.Write(b)
 		}
 		return os.Stdout.Write(b)
 	}
